@@ -57,7 +57,13 @@ class Runner:
         if rc != 0:
             return d, "harness run failed (rc=%d): %s" % (rc, out[-2000:])
         if tie.get("model", True):
-            rc, out = core.sh([core.DRIVER, tie["key"], os.path.join(d, "cases.txt")],
+            mc = os.path.join(d, "cases.txt")
+            if tie.get("model_case"):
+                mc = os.path.join(d, "model_cases.txt")
+                with open(mc, "w") as f:
+                    for c in core.read_lines(os.path.join(d, "cases.txt")):
+                        f.write(tie["model_case"](c) + "\n")
+            rc, out = core.sh([core.DRIVER, tie.get("model_key", tie["key"]), mc],
                               timeout=tie.get("timeout", 3000))
             if rc != 0:
                 return d, "model driver failed (rc=%d): %s" % (rc, out[-2000:])
@@ -83,6 +89,12 @@ class Runner:
                 gg, mm = (canon(g), canon(m)) if canon else (g, m)
                 if gg != mm:
                     res.mismatches.append((shard, i, c, g, m))
+            tags = tie.get("tags")
+            if o.startswith("FAIL") and tags:
+                # an oracle line may carry verdicts for several properties: "[Cxx] text ;; [Cyy] text"
+                segs = [sg.strip() for sg in o[4:].split(";;")]
+                segs = [sg for sg in segs if any(sg.startswith("[%s]" % t) for t in tags)]
+                o = ("FAIL " + " ;; ".join(segs)) if segs else "OK"
             if o.startswith("FAIL"):
                 k = self.match_known(o, c)
                 if k:
